@@ -12,7 +12,7 @@ pub struct World {
     pub vsel: u64,
 }
 
-pub const AUTO_VERBOSITY_NOTE: &str = "runs whose case does not fix a verbosity use 0 / -v / -vv / -vvv for 70 / 10 / 10 / 10 % of the chains (chosen by a hash of the indexed block hashes, so that partner runs of one case share it); a fifth of the chains write into a dump folder that already holds longer stale temporary files of the same callback; the worker pool has 1..130 threads (per chain); a third of the chains run with the release build of the tool; an eighth of the chains run with stdout on a pseudo terminal and an eighth with a shifted wall clock; likewise 40 % of the chains are run with the blockchain directory and the dump folder spelled differently on the command line (relative to the working directory, with trailing slashes, with ./ and /../ detours) and TZ set to a far-off zone";
+pub const AUTO_VERBOSITY_NOTE: &str = "runs whose case does not fix a verbosity use 0 / -v / -vv / -vvv for 70 / 10 / 10 / 10 % of the chains (chosen by a hash of the indexed block hashes, so that partner runs of one case share it); a fifth of the chains write into a dump folder that already holds longer stale temporary files of the same callback; the worker pool has 1..33 threads (per chain); a third of the chains run with the release build of the tool; an eighth of the chains run with stdout on a pseudo terminal and an eighth with a shifted wall clock; likewise 40 % of the chains are run with the blockchain directory and the dump folder spelled differently on the command line (relative to the working directory, with trailing slashes, with ./ and /../ detours) and TZ set to a far-off zone";
 
 impl World {
     /// writes the plan into <scratch>/data
@@ -43,6 +43,11 @@ impl World {
                 2 => 3,
                 _ => 0,
             };
+            // trace output of the debug build costs about a minute per 10 MB of block data on a busy machine: large
+            // data directories (tens of thousands of blocks, megabyte scripts) are run at -v at most
+            if o.verbose >= 2 && self.stale_len() > (24 << 20) {
+                o.verbose = 1;
+            }
         }
         // an eighth of the chains run with the tool's stdout on a pseudo terminal, another eighth with the wall clock
         // shifted by years or set close to the chain's own header times (neither may change any result)
@@ -69,7 +74,10 @@ impl World {
         }
         // the size of the worker pool is a per-chain choice as well (runs that do not set it used to get 2 workers)
         if o.threads.is_none() {
-            o.threads = Some([1u32, 2, 2, 3, 4, 8, 16, 33, 64, 130][((self.vsel >> 58) % 10) as usize]);
+            // (idle rayon workers spin before they sleep: pools far beyond the core count make every block of a long chain
+            // expensive, so the large settings - 64, 97, 300 - are left to C13, which uses them on small chains)
+            let t = [1u32, 2, 2, 3, 4, 6, 8, 12, 16, 33][((self.vsel >> 58) % 10) as usize];
+            o.threads = Some(if self.stale_len() > (24 << 20) { t.min(4) } else { t });
         }
         // half of the Bitcoin chains are run without `-c` (Bitcoin is the default coin)
         if (self.vsel >> 55) % 2 == 0 {
